@@ -80,6 +80,40 @@ def kernel2d_case(rng, cid, prec):
                 perturb=None, dumplu=1, timeout=120, kind="kernel2d")
 
 
+def panelfill_case(rng, cid, prec):
+    """the supernode test of p?gstrf_column_dfs on fill that reaches a column THROUGH an earlier column of its own panel: columns
+    f < j-1 < j on one etree chain inside one panel, U(f,j) != 0, U(j-1,j) structurally zero, struct(L(:,f)) holds a row that
+    struct(L(:,j-1)) lacks, yet |struct(L(:,j))| = |struct(L(:,j-1))| - 1 (the count test alone cannot tell the columns apart);
+    natural order, strongly dominant diagonal (diagonal pivots), relax 1"""
+    ncomp = 2 if prec in "cz" else 1
+    rnd = f32 if prec in "sc" else (lambda v: v)
+    # (column 0 is the leaf of the chain, a relaxed supernode and a panel of its own; the regular panel starts at column f = 1 and,
+    #  n being small, has half the nominal width: panel sizes 6, 8, 20 give 3, 4, 10 columns)
+    extra = rng.randint(0, 3); tail = rng.randint(4, 8); n = 4 + tail + extra
+    cols = {0: {0, 1}, 1: {1, 5, 6}, 2: {2, 3, 4, 5, 7}, 3: {1, 3, 4}}
+    for k in range(extra):                 # rows shared by columns j-1 and j keep both conditions
+        cols[2].add(4 + tail + k); cols[3].add(4 + tail + k)
+    for j in range(4, n):
+        cols[j] = {j} | ({j + 1} if j + 1 < n else set())
+        if j + 2 < n and rng.random() < 0.4: cols[j].add(rng.randint(j + 2, n - 1))
+    ent = {}
+    for j, rows in cols.items():
+        for i in rows:
+            ent[(i, j)] = gen.val(rng)
+    for j in range(n):
+        ent[(j, j)] = (40.0 * sum(abs(v) for (i, jj), v in ent.items() if jj == j and i != j) + 50.0) * rng.choice([1, -1])
+    A = gen.from_entries(n, ent, "panelfill")
+    vals = []
+    for v in A["vals"]:
+        vals += [rnd(v), rnd(gen.val(rng) * 0.3)] if ncomp == 2 else [rnd(v)]
+    nrhs = rng.choice([1, 2])
+    rhs = [rnd(gen.val(rng)) for _ in range(n * nrhs * ncomp)]
+    return dict(id=cid, prec=prec, driver="gssv", stype="NC", m=n, n=n, colptr=A["colptr"], rowind=A["rowind"], vals=vals,
+                nrhs=nrhs, rhs=rhs, ldb=n, nprocs=rng.choice([1, 1, 2]), colperm=0,
+                ienv=[rng.choice([6, 8, 20]), 1, rng.choice([8, 20]), rng.choice([4, 200]), rng.choice([2, 100]), -50, -50, -30],
+                perturb=None, dumplu=1, timeout=120, kind="panelfill")
+
+
 def cplx(flat):
     return [complex(flat[2 * i], flat[2 * i + 1]) for i in range(len(flat) // 2)]
 
@@ -164,6 +198,8 @@ def run(ctx):
             cases.append(make_case(rng, k + 1, prec, kinds[k % len(kinds)], rng.randint(1, nmax), ctx.quick()))
         for k in range(4 if ctx.quick() else 30):
             cases.append(kernel2d_case(rng, 5000 + k, prec))
+        for k in range(4 if ctx.quick() else 30):
+            cases.append(panelfill_case(rng, 6000 + k, prec))
         for flavor in (("hooks", "vendor") if prec == "d" else ("hooks",)):
             exe = drv.build(ctx, prec, flavor)
             sub = cases if flavor == "hooks" else cases[::3]
